@@ -44,7 +44,7 @@ def run(ctx, res):
     rng = ctx.rng
     Gfx, Gff, Map, Sfx, Music = _secs()
     res.rule = ('region contents: all 256 byte values at every column of a gfx row (4 rows), all 65536 sfx note words, '
-                'all 2^3 music flag x 2^4 channel-high-bit patterns x channel values, random whole regions; each rendered by the '
+                'all 2^3 music flag x 2^4 channel-high-bit patterns x channel values, random whole regions, record-structured regions (each row/pattern untouched-default / zero / sparse / random), the empty cart\'s own regions; each rendered by the '
                 'implementation, the Lean model and the Lean Spec, and read back; PICO-8-written fixtures; '
                 'distinct non-trivial = distinct (section, region bytes) with a non-zero byte')
     jobs = []   # (kind, cls, data)
@@ -65,6 +65,43 @@ def run(ctx, res):
         jobs.append(('map', Map, U.rand_bytes(rng, 0x1000)))
         jobs.append(('sfx', Sfx, U.rand_bytes(rng, 0x1100)))
         jobs.append(('music', Music, U.rand_bytes(rng, 0x100)))
+    # record-structured regions: every row/pattern is independently untouched (PICO-8's default, picotool's own empty default,
+    # all zero), sparse, or random — carts mostly consist of untouched records
+    for _ in range(ctx.budget(6, 60)):
+        sx = bytearray()
+        for pid in range(64):
+            notes = rng.choice([bytes(64), bytes(64), U.rand_bytes(rng, 64, 'uniform'),
+                                bytes(64 - 2 * (k := rng.randrange(32)) - 2) + bytes([rng.randrange(256), rng.randrange(256)]) + bytes(2 * k)])
+            head = rng.choice([bytes([0, 16, 0, 0]), bytes([0, 16, 0, 0]), bytes([0, 1, 0, 0]), bytes(4), bytes([1, 16, 0, 0]), bytes([0, 16, 1, 0]),
+                               bytes([0, 16, 0, 1]), bytes([0, 17, 0, 0]), U.rand_bytes(rng, 4, 'uniform')])
+            sx += notes + head
+        jobs.append(('sfx', Sfx, bytes(sx)))
+        mu = bytearray()
+        for pid in range(64):
+            mu += rng.choice([bytes([0x41, 0x42, 0x43, 0x44]), bytes([0x41, 0x42, 0x43, 0x44]), bytes(4), bytes([0x40] * 4), U.rand_bytes(rng, 4, 'uniform'),
+                              bytes([0xc1, 0x42, 0x43, 0x44]), bytes([0x41, 0xc2, 0x43, 0x44]), bytes([0x41, 0x42, 0xc3, 0x44])])
+        jobs.append(('music', Music, bytes(mu)))
+        for kind, cls, size, row in (('gfx', Gfx, 0x2000, 64), ('map', Map, 0x1000, 128), ('gff', Gff, 0x100, 128)):
+            d = bytearray()
+            while len(d) < size:
+                d += rng.choice([bytes(row), bytes(row), b'\xff' * row, U.rand_bytes(rng, row, 'uniform'),
+                                 bytes(row - 1) + bytes([rng.randrange(1, 256)]), bytes([rng.randrange(1, 256)]) + bytes(row - 1)])
+            jobs.append((kind, cls, bytes(d[:size])))
+    # each untouched-record value at the first, second and last record position, the other records random
+    for rec in (bytes(64) + bytes([0, 16, 0, 0]), bytes(64) + bytes([0, 1, 0, 0]), bytes(68), bytes(64) + bytes([0, 32, 0, 0])):
+        for pos in (0, 1, 63):
+            sx = bytearray(U.rand_bytes(rng, 0x1100, 'uniform'))
+            sx[pos * 68:pos * 68 + 68] = rec
+            jobs.append(('sfx', Sfx, bytes(sx)))
+    for rec in (bytes([0x41, 0x42, 0x43, 0x44]), bytes(4), bytes([0x40] * 4)):
+        for pos in (0, 1, 63):
+            mu = bytearray(U.rand_bytes(rng, 0x100, 'uniform'))
+            mu[pos * 4:pos * 4 + 4] = rec
+            jobs.append(('music', Music, bytes(mu)))
+    from pico8.game.game import Game
+    eg = Game.make_empty_game()
+    for kind, cls in (('gfx', Gfx), ('map', Map), ('gff', Gff), ('sfx', Sfx), ('music', Music)):
+        jobs.append((kind, cls, bytes(getattr(eg, kind)._data)))
     # sfx: all 65536 note words: 64 patterns x 32 notes = 2048 notes per region -> 32 regions
     for base in range(0, 65536, 2048):
         s = bytearray(U.rand_bytes(rng, 0x1100, 'uniform'))
